@@ -74,6 +74,7 @@ pub fn execute(ctx: &mut Ctx, lines: &[String]) -> Vec<(Vec<String>, Vec<String>
         "flw" if lines.iter().take(6).any(|l| l.starts_with("NOTE realclock ")) => vec![(lines.to_vec(), realclock::execute(ctx, lines))],
         "flw" | "robust" => {
             let ans = flw::execute(ctx, lines);
+            c15_mode_oracle(ctx, &hdr, lines, &ans);
             // `BGTRACE` is rewritten into what was observed of the cleanup thread (`BGOBS …`)
             let obs = flw::BGOBS_LINE.lock().unwrap().take();
             // `KW` (kill at an arbitrary instant) is rewritten into what was found afterwards (`KOBS …`)
@@ -86,6 +87,32 @@ pub fn execute(ctx: &mut Ctx, lines: &[String]) -> Vec<(Vec<String>, Vec<String>
         "names" => vec![(lines.to_vec(), names::execute(ctx, lines))],
         "std" => vec![(lines.to_vec(), stdout::execute(ctx, lines))],
         m => panic!("unknown model {m}"),
+    }
+}
+
+/// C15 said directly, implementation against implementation: the same history is executed once
+/// more in `WriteMode::Direct`; what is found after the final shutdown (bytes, partition, names)
+/// must be the same. (Generated histories only; the corpus holds the known finding about raw
+/// chunks that look like control messages.)
+fn c15_mode_oracle(ctx: &mut Ctx, hdr: &[&str], lines: &[String], ans: &[String]) {
+    if hdr[2] != "C15" || hdr.len() < 4 || hdr[3].starts_with("corpus:") || hdr[3].starts_with("lf") { return; }
+    let Some(mi) = lines.iter().position(|l| l.starts_with("MODE ")) else { return };
+    if lines[mi] == "MODE direct" || lines.iter().any(|l| l.starts_with("RECURSE") || l.starts_with("NOTE realclock")) { return; }
+    let Some(last_shut) = lines.iter().rposition(|l| l == "SHUT") else { return };
+    let mut twin: Vec<String> = lines.to_vec();
+    twin[mi] = "MODE direct".into();
+    // the direct run gets the capacity `none` in its configuration lines, too (harness bookkeeping)
+    let mut sub = Ctx { work: ctx.work.join("c15-direct-twin"), report: Default::default(), case_no: ctx.case_no };
+    let _ = std::fs::create_dir_all(&sub.work);
+    let ans2 = flw::execute(&mut sub, &twin);
+    let _ = std::fs::remove_dir_all(&sub.work);
+    ctx.report.count("oracle.mode-twin");
+    for i in last_shut + 1..lines.len().min(ans.len()).min(ans2.len()) {
+        if matches!(lines[i].as_str(), "READ" | "PARTS" | "SNAP") && ans[i] != ans2[i] {
+            ctx.report.fail(&hdr[2..].join(" "), "mode-dependent",
+                &format!("line {i} ({}): after the final shutdown the files differ between `{}` and the same history in WriteMode::Direct:\n  {}: {}\n  direct: {}", lines[i], lines[mi], lines[mi], ans[i], ans2[i]));
+            return;
+        }
     }
 }
 
